@@ -3,9 +3,11 @@ import os, subprocess
 from vlib import build, core
 
 T = os.path.join(build.REPO, 'tests')
+VALGRIND = 'valgrind -q --tool=memcheck --error-exitcode=98 --exit-on-first-error=yes --fullpath-after= --undef-value-errors=yes --track-origins=no --num-callers=12'
 HARNESSES = {
     'h_c03/asan': ('h_c03', 'asan', dict(sources=['h_c03.c', 'legacy_vectors.c'], cflags=['-I' + T, '-Wno-deprecated-declarations'], hash_subdirs=['tests'])),
     'h_c03/plain': ('h_c03', 'plain', dict(sources=['h_c03.c', 'legacy_vectors.c'], cflags=['-I' + T, '-Wno-deprecated-declarations'], hash_subdirs=['tests'])),
+    'h_c03/val': ('h_c03', 'val', dict(sources=['h_c03.c', 'legacy_vectors.c'], cflags=['-I' + T, '-Wno-deprecated-declarations'], hash_subdirs=['tests'])),
     'decodecorpus': ('decodecorpus', 'plain', dict(sources=['empty.c'], repo_sources=['tests/decodecorpus.c', 'programs/util.c', 'programs/timefn.c'],
                                                    cflags=['-I' + os.path.join(build.REPO, 'programs'), '-w'], ldflags=['-lm'], refdec=False, hash_subdirs=['tests', 'programs'])),
 }
@@ -22,7 +24,7 @@ def make_corpus(exe, outdir, nplain, ndict, seed=4242):
 
 def run(prop, tier, seed, t0):
     thorough = tier == 'thorough'
-    exes = build.build_many([HARNESSES['h_c03/asan'], HARNESSES['h_c03/plain'], HARNESSES['decodecorpus']])
+    exes = build.build_many([HARNESSES['h_c03/asan'], HARNESSES['h_c03/plain'], HARNESSES['decodecorpus'], HARNESSES['h_c03/val']])
     R = core.Runner(prop, tier, seed)
     res = core.Result()
     corpus = make_corpus(exes[2], os.path.join(R.tmp, 'corpus'), 400 if thorough else 150, 150 if thorough else 60)
@@ -30,14 +32,21 @@ def run(prop, tier, seed, t0):
     na, npl = (1500000, 4000000) if thorough else (16000, 40000)
     R.run_sharded(res, exes[0], [], na, env=env, label='h_c03/asan', variant='asan')
     R.run_sharded(res, exes[1], [], npl, env=env, label='h_c03/plain', variant='plain', first=na)
+    # valgrind memcheck over the uninstrumented build (assembly Huffman loops on): definedness of every value a branch or address
+    # depends on, which neither ASan nor guard pages see
+    nv = 24000 if thorough else 640
+    before = res.stat('inputs')
+    venv = dict(env, __wrapper__=VALGRIND, VERIF_SLOW='60')
+    R.run_sharded(res, exes[3], [], nv, env=venv, label='h_c03/val', variant='val', first=na + npl, wall=7200 if thorough else 1500)
+    vg_inputs = res.stat('inputs') - before
     cov = {
         'evaluations': res.stat('inputs'), 'distinct_nontrivial': res.ncells('mutation') + res.ncells('outcome'),
         'rule': 'corpus = compressor output over parameters/data families + tests/decodecorpus.c frames (with/without dictionary) built from the tree + golden files + legacy v0.5-v0.7 and modern frames from tests/legacy.c + skippable/multi-frame; '
                 'mutations: bit/byte flips, truncation, splicing, FIELD-AWARE (R\'s parser gives the positions of descriptor, window/dictID/FCS, block headers, literals-section header, Huffman description, sequence header/modes/tables), random, random after a valid header, trailing bytes, unchanged; '
-                'each input through one-shot, reused DCtx, usingDict/DDict/loadDictionary/refPrefix with true and arbitrary dictionaries, streaming (random segmentation, window limits, stableOut, multi-DDict), buffer-less, block-level decode, all inspectors, skippable reader, in-place decode; exact-size guard-paged source and destination, capacities 0/tiny/exact/large. '
+                'each input through one-shot, reused DCtx, usingDict/DDict/loadDictionary/refPrefix with true and arbitrary dictionaries, streaming (random segmentation, window limits, stableOut, multi-DDict), tables of 1..300 DDicts with random dictIDs under refMultipleDDicts and frames naming present/absent IDs, buffer-less, block-level decode, all inspectors, skippable reader, in-place decode; exact-size guard-paged source and destination, capacities 0/tiny/exact/large/around the literal-buffer placement edge of a block; under ASan+UBSan, natively with guard pages, and a share under valgrind memcheck (definedness). '
                 'distinct non-trivial = distinct (origin, mutation kind) + (entry, outcome/error) cells',
-        'mutation_cells': res.cells.get('mutation', {}), 'one_shot_outcomes': core.topcells(res, 'outcome', 30), 'corpus_items': list(res.cells.get('corpus_size', {}).keys()),
+        'inputs_under_valgrind_memcheck': vg_inputs, 'multi_ddict_tables': res.stat('multi_ddict_tables'), 'multi_ddict_lookups': res.stat('multi_ddict_lookups'), 'multi_ddict_present_id_decoded': res.stat('multi_ddict_present_id_decoded'), 'multi_ddict_present_id_refused': res.stat('multi_ddict_present_id_refused'), 'multi_ddict_table_max_entries': res.maxes.get('multi_ddict_table_max_entries', 0), 'mutation_cells': res.cells.get('mutation', {}), 'one_shot_outcomes': core.topcells(res, 'outcome', 30), 'corpus_items': list(res.cells.get('corpus_size', {}).keys()),
     }
     assumptions = ['clean sanitizer runs are not memory safety: non-adjacent / intra-object overflows and reuse of freed memory after quarantine are invisible; guard pages see adjacent accesses by the assembly loops only',
-                   'CPU budget 5 s + 80 us/KiB per input (all entry points) exceeded twice = hang', 'libFuzzer / valgrind stages of the design not built yet', 'no 32-bit build']
+                   'CPU budget 5 s + 80 us/KiB per input (all entry points) exceeded twice = hang', 'coverage-guided (libFuzzer) stage of the design not built', 'no 32-bit build']
     return core.finish(prop, tier, seed, 'exploration', res, cov, assumptions, t0, R)
